@@ -37,6 +37,7 @@ def gen_scenario(rng, tier, infos, rec_by):
     for _ in range(rng.randrange(0, 4)):
         other.append({"after_us": rng.randrange(0, 400000), "kind": rng.choice(["unreg_other", "reg_new", "reg_again", "close_sub", "reg_msg", "unreg_msg"]), "target": rng.choice(names), "sub": rng.randrange(len(subs))})
     sc["thread_actions"] = other
+    sc["bound_methods"] = rng.random() < 0.4
     return sc
 
 
@@ -61,37 +62,48 @@ def run_scenario(sc, infos):
         cbs = {}
         counts = {}
 
+        def logged(kind, label, name, fn):
+            """every (un)registration / close through the public API, with the event indices it spans"""
+            rec = {"kind": kind, "label": label, "name": name, "start": len(sim.events), "end": None, "th": sim.cur.name}
+            s.registry_log.append(rec)
+            try:
+                fn()
+            finally:
+                rec["end"] = len(sim.events)
+
+        def lab_of(cb):
+            return "message" if cb._kind == "message" else "update:" + f"{cb._owner.id}"
+
+        def reg(cb):
+            logged("reg", lab_of(cb), cb._cbid, lambda: (c.register_message_callback if cb._kind == "message" else cb._owner.register_update_callback)(cb._fresh()))
+
+        def unreg(cb):
+            logged("unreg", lab_of(cb), cb._cbid, lambda: (c.unregister_message_callback if cb._kind == "message" else cb._owner.unregister_update_callback)(cb._fresh()))
+
         def do_action(a, who):
             kind = a["kind"]
             inst, cid, funcs = insts[a["sub"] % len(insts)]
             tgt = cbs.get(a["target"])
             me = cbs.get(who) if who else None
             if kind == "unreg_self" and me is not None:
-                (inst.unregister_update_callback if me._kind == "update" else c.unregister_message_callback)(me) if me._kind == "message" or me._owner is inst else me._owner.unregister_update_callback(me)
+                unreg(me)
             elif kind == "unreg_other" and tgt is not None:
-                if tgt._kind == "update":
-                    tgt._owner.unregister_update_callback(tgt)
-                else:
-                    c.unregister_message_callback(tgt)
+                unreg(tgt)
             elif kind == "unreg_twice" and tgt is not None and tgt._kind == "update":
-                tgt._owner.unregister_update_callback(tgt)
-                tgt._owner.unregister_update_callback(tgt)
+                unreg(tgt)
+                unreg(tgt)
             elif kind == "reg_new":
                 n = f"x{len(cbs)}"
-                cb = make_update(n, inst)
-                inst.register_update_callback(cb)
+                reg(make_update(n, inst))
             elif kind == "reg_again" and tgt is not None:
-                if tgt._kind == "update":
-                    tgt._owner.register_update_callback(tgt)
-                else:
-                    c.register_message_callback(tgt)
+                reg(tgt)
             elif kind == "close_sub":
-                inst.close()
+                logged("close", "update:" + f"{inst.id}", None, inst.close)
             elif kind == "reg_msg":
                 n = f"y{len(cbs)}"
-                c.register_message_callback(make_msg(n))
+                reg(make_msg(n))
             elif kind == "unreg_msg" and tgt is not None and tgt._kind == "message":
-                c.unregister_message_callback(tgt)
+                unreg(tgt)
 
         def after_invocation(name):
             counts[name] = counts.get(name, 0) + 1
@@ -105,36 +117,69 @@ def run_scenario(sc, infos):
                         s.errors.append((name, type(e).__name__, str(e)[:100]))
                         raise
 
-        def make_update(name, inst):
-            def cb(fname, value):
-                sim.ev("CbEnter", set="update:" + f"{inst.id}", item=name)
-                h = inst.function_handlers.get(fname)
-                s.invocations.append((len(sim.events), name, "update", (f"{inst.id}", fname, canon_value(value)), h is not None and canon_value(h.value) == canon_value(value)))
-                after_invocation(name)
+        class Handle:
+            """a callback as the application holds it: a plain function, or an object whose bound method is
+            registered (every access `obj.on_x` yields a new, equal method object)"""
 
-            cb._cbid = name
-            cb._kind = "update"
-            cb._owner = inst
-            cbs[name] = cb
-            return cb
+            def __init__(self, name, kind, owner, bound):
+                self._cbid, self._kind, self._owner, self._bound = name, kind, owner, bound
+                if bound:
+                    outer = self
+
+                    class Client:
+                        _cbid = name
+
+                        def on_update(self_, fname, value):
+                            outer._call_update(fname, value)
+
+                        def on_message(self_, st, sub, f, v):
+                            outer._call_message(st, sub, f, v)
+
+                    self._client = Client()
+                else:
+                    if kind == "update":
+                        def fn(fname, value):
+                            self._call_update(fname, value)
+                    else:
+                        def fn(st, sub, f, v):
+                            self._call_message(st, sub, f, v)
+                    fn._cbid = name
+                    self._fn = fn
+
+            def _fresh(self):
+                if self._bound:
+                    return self._client.on_update if self._kind == "update" else self._client.on_message
+                return self._fn
+
+            def _call_update(self, fname, value):
+                inst = self._owner
+                sim.ev("CbEnter", set="update:" + f"{inst.id}", item=self._cbid)
+                h = inst.function_handlers.get(fname)
+                s.invocations.append((len(sim.events), self._cbid, "update", (f"{inst.id}", fname, canon_value(value)), h is not None and canon_value(h.value) == canon_value(value)))
+                after_invocation(self._cbid)
+
+            def _call_message(self, st, sub, f, v):
+                sim.ev("CbEnter", set="message", item=self._cbid)
+                s.invocations.append((len(sim.events), self._cbid, "message", (st.name, sub, f, v), True))
+                after_invocation(self._cbid)
+
+        brng = random.Random(sc["seed"] + 5)
+
+        def make_update(name, inst):
+            h = Handle(name, "update", inst, sc.get("bound_methods") and brng.random() < 0.6)
+            cbs[name] = h
+            return h
 
         def make_msg(name):
-            def cb(st, sub, f, v):
-                sim.ev("CbEnter", set="message", item=name)
-                s.invocations.append((len(sim.events), name, "message", (st.name, sub, f, v), True))
-                after_invocation(name)
-
-            cb._cbid = name
-            cb._kind = "message"
-            cb._owner = None
-            cbs[name] = cb
-            return cb
+            h = Handle(name, "message", None, sc.get("bound_methods") and brng.random() < 0.6)
+            cbs[name] = h
+            return h
 
         for si, (inst, cid, funcs) in enumerate(insts):
             for k in range(sc["n_update"]):
-                inst.register_update_callback(make_update(f"u{si}_{k}", inst))
+                reg(make_update(f"u{si}_{k}", inst))
         for k in range(sc["n_msg"]):
-            c.register_message_callback(make_msg(f"m{k}"))
+            reg(make_msg(f"m{k}"))
 
         # the device speaks
         t = 200000
@@ -203,7 +248,62 @@ def set_traces(events):
     return out, ids
 
 
+def mon_api(s, sc, infos):
+    """judged on what went through the public API only (no knowledge of how the library stores callbacks):
+    within one delivery, a callback whose registration state is settled (no register / unregister / close of it
+    overlapping the delivery) is invoked exactly once if registered and not at all otherwise; nobody twice"""
+    ev = s.sim.events
+    ops = [r for r in s.registry_log if r["end"] is not None]
+    names = {}
+    for r in s.registry_log:
+        if r["name"] is not None:
+            names.setdefault(r["label"], set()).add(r["name"])
+    by_id = {}
+    for idx in sc["subs"]:
+        cls, cid, funcs = infos[idx]
+        by_id[cid] = {f.name: f for a, f in funcs}
+    inv = [(i, n) for (i, n, kind, args, ok) in s.invocations]
+    i = 0
+    while i < len(ev):
+        e = ev[i]
+        if e["k"] != "Deliver":
+            i += 1
+            continue
+        j = next((k for k in range(i + 1, len(ev)) if ev[k]["k"] == "DeliverEnd" and ev[k]["th"] == e["th"]), len(ev))
+        labels = ["message"]
+        sfv = e.get("sfv")
+        if e.get("status") == "OK" and sfv and sfv[0] in by_id and sfv[1] in by_id[sfv[0]] and sfv[2] is not None:
+            try:
+                by_id[sfv[0]][sfv[1]].converter.to_value(sfv[2])
+                labels.append("update:" + sfv[0])
+            except Exception:  # noqa
+                pass
+        for lab in labels:
+            for n in sorted(names.get(lab, ())):
+                mine = [r for r in ops if r["label"] == lab and (r["name"] == n or r["kind"] == "close")]
+                unfinished = [r for r in s.registry_log if r["end"] is None and r["label"] == lab and (r["name"] == n or r["kind"] == "close")]
+                before = [r for r in mine if r["end"] <= i]
+                overlapping = [r for r in mine if r["end"] > i and r["start"] <= j] + [r for r in unfinished if r["start"] <= j]
+                calls = sum(1 for (k, nm) in inv if nm == n and i < k <= j + 1)
+                if calls > 1:
+                    return f"{lab}: callback {n} invoked {calls} times for one message"
+                if overlapping:
+                    continue
+                closed = any(r["kind"] == "close" for r in before)  # a closed subunit is no longer initialised: nothing is delivered any more
+                state_in = bool(before) and before[-1]["kind"] == "reg" and not closed
+                if state_in and calls != 1:
+                    return f"{lab}: callback {n} was registered (through the API, completed before the message) and not unregistered, but was not invoked for {sfv}"
+                if not state_in and calls:
+                    what = "the subunit was closed" if closed else ("it was unregistered" if before else "it was never registered")
+                    return f"{lab}: callback {n} invoked for {sfv} although {what} before the message arrived"
+        i = j
+    return None
+
+
 def monitor(s, sc, infos):
+    why = mon_api(s, sc, infos)
+    if why:
+        return why
     ev = s.sim.events
     if s.disconnects:
         return "the connection was lost (disconnect callback invoked) during callback (un)registration"
@@ -244,6 +344,8 @@ def monitor(s, sc, infos):
         elif k == "CbEnter":
             ds = cur_delivery.get(lab)
             if not ds:
+                if not any(x["k"] == "SetSnapshot" and x.get("set") == lab for x in ev):
+                    continue  # the library does not keep these callbacks in a set the harness instruments: API-level rules only
                 return f"callback {e['item']} of {lab} invoked outside any delivery"
             ds[0]["called"].append(e["item"])
     for lab, ds in removed_since.items():
@@ -311,7 +413,10 @@ def run(chk: Check):
             continue
         # sequential half when nobody mutated: each update callback saw exactly the expected notifications, in order
         if not sc["cb_actions"] and not sc["thread_actions"]:
-            exp = expected_updates(sc, infos)
+            # what reached the message callbacks, in order (a SYS:MODELNAME line may legitimately be withheld as
+            # the reply to a start-up probe the silent device of this scenario never answered: C13)
+            delivered = {"history": [[e["status"], e["sfv"]] for e in s.sim.events if e["k"] == "Deliver"], "subs": sc["subs"]}
+            exp = expected_updates(delivered, infos)
             for si, idx in enumerate(sc["subs"]):
                 cid = infos[idx][1]
                 want = [(c, f, v) for c, f, v in exp if c == cid]
